@@ -121,18 +121,18 @@ def rule_formats(rep: Report, repo: Repo) -> None:
                 how = f'word format {txt}'
             rep.check(ok, 'C06.FORMATS', f'{side}:{fname}({norm(a0)[:30]})', how, f'{rel}:{c.lineno}',
                       expected='format imported from fjm_consts, or the per-width word code')
+    from ..wordcodec import word_codec, codec_ok
+    sup = repo.const(K, 'SUPPORTED_MEMORY_WIDTHS')
     tabs = {}
     for rel, fn in ((R, 'Reader._read_decompressed_data'), (W, 'Writer.write_to_file')):
         f = expand_private_calls(repo, rel, repo.func(rel, fn), fn.split('.')[0], depth=2)        # extracted pack / unpack helpers read in place
-        d = [n for n in ast.walk(f) if isinstance(n, ast.Dict) and n.keys and all(isinstance(k, ast.Constant) for k in n.keys)]
-        if not d:
-            raise AnalysisError(f'{fn}: word-code table missing')
-        tabs[rel] = ast.literal_eval(d[0])
-        pref = [n for n in ast.walk(f) if isinstance(n, (ast.BinOp, ast.JoinedStr)) and norm(n).startswith(("'<'", "f'<"))]
-        rep.check(bool(pref), 'C06.FORMATS', f'{fn}:little-endian', f'word format built as {norm(pref[0]) if pref else None}', f'{rel}:{f.lineno}')
-    sup = repo.const(K, 'SUPPORTED_MEMORY_WIDTHS')
-    ok = tabs[R] == tabs[W] and set(tabs[R]) == set(sup) and all(struct.calcsize('<' + c) * 8 == w and c.isupper() for w, c in tabs[R].items())
-    rep.check(ok, 'C06.FORMATS', 'word-codes', f'reader {tabs[R]} writer {tabs[W]}', W, expected='equal, unsigned, w/8 bytes each')
+        wc = word_codec(f, sup)             # struct code per width, or int.from_bytes / to_bytes with a width-derived byte count
+        if wc is None:
+            raise AnalysisError(f'{fn}: word codec missing')
+        tabs[rel] = wc
+        rep.check(all(v[2] == 'little' for v in wc[0].values()), 'C06.FORMATS', f'{fn}:little-endian', f'word format: {wc[1]}', f'{rel}:{f.lineno}')
+    ok = tabs[R][0] == tabs[W][0] and codec_ok(tabs[R][0], sup)
+    rep.check(ok, 'C06.FORMATS', 'word-codes', f'reader {tabs[R][1]} writer {tabs[W][1]}', W, expected='equal, unsigned, w/8 bytes each')
 
 
 def rule_fields(rep: Report, repo: Repo) -> None:
